@@ -572,3 +572,31 @@ pub fn eph_trees3() -> Vec<Universe> {
     }
     out
 }
+
+/// add to every single-graph universe the graphs with one of its free slots (index >= 3) absent, so
+/// that a chain step can add or remove that job (a *new* consumer has no link records yet)
+pub fn with_slot_removals(us: Vec<Universe>) -> Vec<Universe> {
+    us.into_iter()
+        .map(|mut u| {
+            let g = u.graphs[0].clone();
+            for ni in 3..g.n() {
+                let present: Vec<usize> = (0..g.n()).filter(|i| *i != ni).collect();
+                let jobs: Vec<JobDef> = present.iter().map(|i| g.jobs[*i].clone()).collect();
+                let edges: Vec<Edge> = g
+                    .edges
+                    .iter()
+                    .filter(|e| e.up != ni && e.down != ni)
+                    .map(|e| Edge {
+                        up: present.iter().position(|x| *x == e.up).unwrap(),
+                        down: present.iter().position(|x| *x == e.down).unwrap(),
+                        read: e.read,
+                        parts: e.parts.clone(),
+                    })
+                    .collect();
+                u.graphs.push(Graph { jobs, edges });
+            }
+            u.label = format!("{}+removals", u.label);
+            u
+        })
+        .collect()
+}
